@@ -52,8 +52,12 @@
 //!    `From<&Uint> for Int / der::Uint / Any` (timeouts; function `der_types` kept, unregistered).
 //!  * num-bigint: `BigUint::from(&x)` 108 s / 5.1 GB at 8 bits (too close to the cap; `bigint_to` kept, unregistered),
 //!    `TryFrom<&BigUint>` 11 GB at 8 bits even for `BigUint::from(u64)` (`bigint_from`, unregistered).
-//!  * serde human-readable (String formatting / parsing), postgres `to_sql` / `from_sql` (not attempted for lack of
-//!    time: `Type` holds an Arc, BytesMut output), ark-ff (feature not enabled in `codecs`).
+//!  * serde human-readable: only a BOUNDED stand-in (`c16_serde_human_*`: eight concrete value/width pairs through a recording
+//!    human-readable Serializer - the exact text handed to `serialize_str` ("0x0" for zero at any width, minimal 0x-prefixed
+//!    lower-case hex otherwise, full-width form for `Bits`) and its `visit_str` round trip; 4-45 s each, 2^64 at 65 bits 226 s);
+//!    postgres: only the binary NUMERIC form on four concrete values (`c16_pg_numeric_*`, BOUNDED: exact bytes incl. the weight of
+//!    a value whose low base-10000 digits are zero, and the from_sql round trip; 15-25 s each); the other column types are not
+//!    attempted; ark-ff (feature not enabled in `codecs`).
 //!  * SCALE compact decoding of the big mode with a byte count other than 4, 8, 16 (see c17).
 use crate::oracle as o;
 use crate::sym::*;
